@@ -44,6 +44,7 @@ const (
 	c13Paths           // [paths] == [path(..)] without the root
 	c13Leaf            // every tostream event [p, leaf]: getpath(p) == leaf
 	c13Derived         // setpath(p; x) | getpath(p) == x for x taken from the value at p itself (its prefixes, suffixes, members)
+	c13AllTrue         // the program emits true
 )
 
 type c13Law struct {
@@ -205,6 +206,7 @@ var c13Laws = []*c13Law{
 	{name: "gmtime|mktime", src: "gmtime | mktime", dom: c13WholeSecond, numeric: true},
 	{name: "setpath(p;x)|getpath(p)", src: "setpath($p; $x) | getpath($p)", vars: []string{"$p", "$x"}, kind: c13SetGet, dom: c13Any},
 	{name: "setpath(p;part of getpath(p))", src: `. as $in | [paths, []] | map(. as $p | ($in | getpath($p)) as $cur | ($cur | if type == "array" or type == "string" then (range(0; length + 1) as $k | .[:$k], .[$k:]), (select(type == "array") | .[]?) elif type == "object" then .[], del(.[keys[0]]?) else empty end) as $x | [$p, $x, ($in | setpath($p; $x) | getpath($p))])`, kind: c13Derived, dom: c13Any},
+	{name: "two setpaths on one base", src: `. as $in | [paths(type == "array"), []] | map(. as $p | ($in | getpath($p)) as $cur | select($cur | type == "array") | ($cur | length) as $n | [($in | [setpath($p + [$n]; "x", "y")] | map(getpath($p + [$n]))), ($in | getpath($p) | length), ([$cur[:1] | setpath([1]; "x", "y")] | map(.[1])), ($cur | .[1:2])]) | map(.[0] == ["x", "y"] and .[2] == ["x", "y"]) | all`, kind: c13AllTrue, dom: c13Any},
 	{name: "setpath(p;getpath(p))", src: ". as $in | [paths | . as $p | $in | setpath($p; getpath($p))]", kind: c13SetGetID, dom: c13Any},
 	{name: "[paths]==[path(..)]-root", src: "[[paths], [path(..)]]", kind: c13Paths, dom: c13Any},
 	{name: "tostream-leaf|getpath", src: "[tostream]", kind: c13Leaf, dom: c13Any},
@@ -590,6 +592,10 @@ var kC13 = run.NewKind("c13.law", func(c *run.Ctx, t c13Case) *run.Fail {
 		c.Count("paths_round_tripped", int64(len(outs)))
 		if len(outs) > 1 {
 			c.AddEvals(int64(len(outs) - 1))
+		}
+	case c13AllTrue:
+		if tr.End != run.EndOK || len(tr.Vals) != 1 || tr.Vals[0] != true {
+			return fail("two results of setpath on the same array, held together, must each read back what was set (and the array stay as it was): %s", run.TraceDesc(tr))
 		}
 	case c13Derived:
 		if tr.End != run.EndOK || len(tr.Vals) != 1 {
